@@ -129,8 +129,8 @@ def Valid : List Nat → List Nat → Prop
 
 /-- `permute_dims(x, perm)`: axis `k` of the result is axis `perm[k]` of `x`:
 `y[j_0, …, j_{n-1}] = x[i]` with `i[perm[k]] = j[k]`, i.e. `j = perm.map i` -/
-def IsPermuted {α} (xdims : List Nat) (perm : List Nat) (x y : Nat → α) (V : Nat) : Prop :=
-  ∀ (i : List Nat) (b : Nat), Valid xdims i →
+def IsPermuted {α} (xdims : List Nat) (perm : List Nat) (x y : Nat → α) (V B : Nat) : Prop :=
+  ∀ (i : List Nat) (b : Nat), Valid xdims i → b < B →
     y (flat (perm.map fun p => xdims.getD p 1) (perm.map fun p => i.getD p 0) + V * b) = x (flat xdims i + V * b)
 
 end Primitiv.Spec.Move
